@@ -187,7 +187,7 @@ def pool_validate(v, path, what, timeout=900):
                         replay_name="pool_l%d_%s.json" % (ln, inv))
         else:
             run_rows = [r for r in rows if r.get("run") == row.get("run")]
-            v.violation("pool file inv=%s" % inv,
+            v.violation("pool %s inv=%s" % ("engine-run" if row["ev"] in ("ELine", "EEnd") else "file", inv),
                         "%s, run %d: rule %s of TraceSamplePool fails at log line %d %s (reported samples %d, lines in the phout file %d)" % (
                             what, row.get("run", 0), inv, ln, {k: row.get(k) for k in ("ev", "j", "s", "raw", "reports", "lines")},
                             sum(1 for r in run_rows if r["ev"] == "Shot"), sum(1 for r in run_rows if r["ev"] == "Line")),
@@ -253,6 +253,9 @@ def run(tier, v):
         vlib.tlc_must_fail(r, "SampleCoding_neg_%s.cfg" % n)
     gen = vlib.read_ndjson(cases)
     # 2. drivers
+    poole = os.path.join(d, "poole.ndjson")
+    eex = concurrent.futures.ThreadPoolExecutor(max_workers=1)
+    fengine = eex.submit(vlib.run_driver, b, ["samplepool", "-mode", "engine", "-out", poole], timeout=600)   # sleeps 3 s: next to the others
     obs = os.path.join(d, "obs.ndjson")
     ids = os.path.join(d, "ids.ndjson")
     vlib.run_driver(b, ["samplecoding", "-mode", "cases", "-cases", cases, "-out", obs], timeout=1800)
@@ -264,6 +267,9 @@ def run(tier, v):
     pool4 = os.path.join(d, "pool4.ndjson")
     vlib.run_driver(b, ["samplepool", "-plans", plans, "-out", pool1, "-procs", "1", "-n", "1"], timeout=1800)
     vlib.run_driver(b, ["samplepool", "-plans", plans, "-out", pool4, "-procs", "0", "-n", "4", "-repeat", "2" if not thorough else "1"], timeout=1800)
+    # (c) a whole pool run by the real engine from a YAML config: the first answer takes 2.3 s, the engine discards the
+    # overdue shots (discard_overflow, on by default), the following shots recycle their samples (3 s of wall, mostly asleep)
+    fengine.result()
     # bookkeeping (plain equality of abstract JSON values): the driver played exactly the generated cases
     orows = vlib.read_ndjson(obs)
     begun = {r["caseid"]: r["c"] for r in orows if r["ev"] == "Begin"}
@@ -278,6 +284,11 @@ def run(tier, v):
         f4 = ex.submit(pool_validate, v, pool4, "pool run, 4 concurrent instances")
         (rows1, tr1), (rows2, tr2) = f1.result(), f2.result()
         (prow1, ptr1, pcov1), (prow4, ptr4, pcov4) = f3.result(), f4.result()
+    prowe, ptre, _ = pool_validate(v, poole, "pool run by the real engine, discard_overflow")
+    elines = [r for r in prowe if r["ev"] == "ELine"]
+    ecov = dict(lines=len(elines), discarded=sum(1 for r in elines if r["s"]["tags"] == ["discarded"]),
+                fired_after_a_discard=sum(1 for i, r in enumerate(elines) if r["s"]["tags"] != ["discarded"] and
+                                          any(q["s"]["tags"] == ["discarded"] for q in elines[:i])))
     nplans = len(vlib.read_ndjson(plans))
     if pcov1["recycled"] == 0 or pcov1["failed_object_reused_by_successful_shot"] == 0:
         # nothing was recycled: the run would not have exercised what it is for (machinery, not a verdict)
@@ -307,10 +318,10 @@ def run(tier, v):
                     "first_events": [{k: e.get(k) for k in ("seq", "ev", "inst", "id", "tags", "proto", "net")} for e in rows2[1:7]]})
     cov = {
         "states": states, "transitions": trans,
-        "traces_validated_against_impl": len(begun) + shots2 + pcov1["runs"] + pcov4["runs"],
+        "traces_validated_against_impl": len(begun) + shots2 + pcov1["runs"] + pcov4["runs"] + 1,
         "pool_design_tlc": "%s: %d states" % (pool_exh, pres[0].distinct),
-        "pool_plans": nplans, "pool_run_one_instance": pcov1, "pool_run_concurrent": pcov4,
-        "pool_trace_states": ptr1.distinct + ptr4.distinct,
+        "pool_plans": nplans, "pool_run_one_instance": pcov1, "pool_run_concurrent": pcov4, "pool_run_engine": ecov,
+        "pool_trace_states": ptr1.distinct + ptr4.distinct + ptre.distinct,
         "pool_negative_controls": pool_negs,
         "samples": samples,
         "exhaustive": True,
